@@ -292,6 +292,10 @@ pub enum RAct {
     /// deliver at most n bytes on this call (at least 1 unless at EOF)
     Short(usize),
     Eintr,
+    /// the medium fails: this and every later call returns a hard error (EIO-like, not Interrupted); sticky
+    Hard,
+    /// a one-off hard error on this call only; later calls deliver again
+    HardOnce,
 }
 
 #[derive(Clone, Debug, PartialEq, Eq, Hash, Default)]
@@ -311,12 +315,17 @@ impl ReadPlan {
     pub fn is_clean(&self) -> bool {
         self.chunk.is_none() && self.at.is_empty()
     }
+    pub fn has_hard(&self) -> bool {
+        self.at.iter().any(|(_, a)| *a == RAct::Hard || *a == RAct::HardOnce)
+    }
     pub fn to_json(&self) -> Value {
         json!({
             "chunk": self.chunk,
             "at": self.at.iter().map(|(i, a)| match a {
                 RAct::Short(n) => json!([i, {"short": n}]),
                 RAct::Eintr => json!([i, "eintr"]),
+                RAct::Hard => json!([i, "hard"]),
+                RAct::HardOnce => json!([i, "hard_once"]),
             }).collect::<Vec<_>>(),
         })
     }
@@ -328,6 +337,10 @@ impl ReadPlan {
             let a = e.get(1)?;
             let act = if a.as_str() == Some("eintr") {
                 RAct::Eintr
+            } else if a.as_str() == Some("hard") {
+                RAct::Hard
+            } else if a.as_str() == Some("hard_once") {
+                RAct::HardOnce
             } else {
                 RAct::Short(a.get("short")?.as_u64()? as usize)
             };
@@ -348,6 +361,8 @@ pub struct SimSource<'a> {
     pub short_fired: u64,
     pub chunk_fired: u64,
     pub eintr_fired: u64,
+    pub hard_fired: u64,
+    dead: bool,
     /// offsets at which a delivery was cut short
     pub cut_offsets: Vec<usize>,
 }
@@ -355,7 +370,7 @@ pub struct SimSource<'a> {
 impl<'a> SimSource<'a> {
     pub fn new(data: &'a [u8], plan: ReadPlan, budget: usize) -> Self {
         SimSource { data, pos: 0, plan, calls: 0, budget, budget_exceeded: false,
-                    short_fired: 0, chunk_fired: 0, eintr_fired: 0, cut_offsets: Vec::new() }
+                    short_fired: 0, chunk_fired: 0, eintr_fired: 0, hard_fired: 0, dead: false, cut_offsets: Vec::new() }
     }
     pub fn remaining(&self) -> usize {
         self.data.len() - self.pos
@@ -369,6 +384,16 @@ impl<'a> io::Read for SimSource<'a> {
         if self.calls > self.budget {
             self.budget_exceeded = true;
             return Err(io::Error::new(io::ErrorKind::Other, "fmlsim: call budget exceeded"));
+        }
+        // a failing medium fails whatever is asked, also the call that would have reported end-of-file
+        if self.dead || matches!(self.plan.at.iter().find(|(i, _)| *i == call), Some((_, RAct::Hard))) {
+            self.dead = true;
+            self.hard_fired += 1;
+            return Err(io::Error::new(io::ErrorKind::Other, "fmlsim: injected hard read error (EIO)"));
+        }
+        if matches!(self.plan.at.iter().find(|(i, _)| *i == call), Some((_, RAct::HardOnce))) {
+            self.hard_fired += 1;
+            return Err(io::Error::new(io::ErrorKind::Other, "fmlsim: injected one-off hard read error (EIO)"));
         }
         let avail = self.data.len() - self.pos;
         let want = buf.len().min(avail);
@@ -389,7 +414,7 @@ impl<'a> io::Read for SimSource<'a> {
                     self.cut_offsets.push(self.pos + give);
                 }
             }
-            None => {}
+            Some(RAct::Hard) | Some(RAct::HardOnce) | None => {}
         }
         if let Some(k) = self.plan.chunk {
             let k = k.max(1);
